@@ -848,7 +848,51 @@ pub fn run(tier: Tier) -> i32 {
     for (_, v) in results {
         rep.violations(v);
     }
-    rep.cover("evaluations", json!(cases.len()));
+    // the encoder as the ports use it: a real boundary clock re-emits one to three TLVs of every
+    // combination of sizes (with and without its own PATH_TRACE in front); each emitted Announce is
+    // decoded by the reference codec and must carry exactly those TLVs (C15's reference queue)
+    let mut emitted = 0u64;
+    {
+        use simcore::world::*;
+        let sizes: [usize; 6] = [0, 2, 4, 10, 12, 14];
+        let mut lists: Vec<Vec<usize>> = vec![];
+        for a in sizes {
+            lists.push(vec![a]);
+            for b in sizes {
+                lists.push(vec![a, b]);
+                if tier == Tier::Thorough || (a + b) % 3 == 0 {
+                    for c in sizes {
+                        lists.push(vec![a, b, c]);
+                    }
+                }
+            }
+        }
+        for path_trace in [false, true] {
+            let sys = crate::c15::world(2, path_trace, crate::c15::Prov::Daemon, false);
+            let parent = sys.cfg.peers[0].clone();
+            let res: Vec<Vec<Violation>> = lists
+                .par_iter()
+                .map(|l| {
+                    let tlvs: Vec<Tlv> = l.iter().enumerate().map(|(i, n)| Tlv { typ: 0x4000 + i as u16, value: vec![0xa0 + i as u8; *n] }).collect();
+                    let mut h = vec![crate::c15::ann_with(&parent, 500, tlvs)];
+                    h.extend(crate::c15::tann_all(2, 2));
+                    let mut v = sys.run_all_judged(&h).violations;
+                    for x in &mut v {
+                        x.signature = format!("emitted-announce:{}", x.signature);
+                        x.message = format!("{} [boundary clock (path trace {path_trace}) re-emitting TLVs of value lengths {:?}]", x.message, l);
+                        x.replay = json!({"kind": "emitted", "path_trace": path_trace, "lengths": l});
+                    }
+                    v
+                })
+                .collect();
+            emitted += res.len() as u64;
+            for v in res {
+                rep.violations(v);
+            }
+        }
+    }
+    rep.cover("emitted_announce_cases", json!(emitted));
+    rep.cover("evaluations", json!(cases.len() as u64 + emitted));
     rep.cover("distinct_nontrivial", json!(distinct.len()));
     rep.cover(
         "rule",
@@ -865,6 +909,10 @@ pub fn run(tier: Tier) -> i32 {
 }
 
 pub fn replay(r: &serde_json::Value) {
+    if r["kind"] == "emitted" {
+        println!("emitted-Announce case {r}: rerun ./check C04 quick (the case is re-derived from the size lattice); the same history can be replayed under C15");
+        return;
+    }
     let c = Case { label: r["label"].as_str().unwrap_or("").to_string(), bytes: unhex(r["bytes"].as_str().unwrap()) };
     println!("case {} bytes {}", c.label, hex(&c.bytes));
     println!("reference: {:?}", decode(&c.bytes));
